@@ -110,8 +110,21 @@ type Alloc struct {
 	Nonce   uint64
 }
 
+// RawSlot is a contract storage slot with an arbitrary byte value (system contracts).
+type RawSlot struct {
+	Addr common.Address
+	Key  common.Hash
+	Val  []byte
+}
+
 // InitGenesis commits the genesis state and stores block 0, as `init` does.
 func InitGenesis(d *DBs, isTrie bool, allocs []Alloc) error {
+	return InitGenesisX(d, isTrie, allocs, nil, nil)
+}
+
+// InitGenesisX is InitGenesis with system-contract storage and an initial candidate list
+// (what the chain has after its first election).
+func InitGenesisX(d *DBs, isTrie bool, allocs []Alloc, raw []RawSlot, cands []*types.CandidateInOrder) error {
 	st, err := state.New(common.EmptyHash, state.NewKeyValueDBWithCache(d.State, 0, isTrie, 0))
 	if err != nil {
 		return err
@@ -133,6 +146,9 @@ func InitGenesis(d *DBs, isTrie bool, allocs []Alloc) error {
 			st.SetNonce(a.Addr, a.Nonce)
 		}
 	}
+	for _, r := range raw {
+		st.SetState(r.Addr, r.Key, r.Val)
+	}
 	stateHash := st.IntermediateRoot(false)
 	root, err := st.Commit(false, 0)
 	if err != nil {
@@ -144,7 +160,7 @@ func InitGenesis(d *DBs, isTrie bool, allocs []Alloc) error {
 	bs := bc.NewBlockStore(d.Block)
 	gen := &types.Block{Header: &types.Header{ChainID: ChainID, Height: 0, Time: GenesisTime, StateHash: stateHash,
 		GasLimit: types.DefaultConsensusParams().BlockSize.MaxGas}, Data: &types.Data{}, LastCommit: &types.Commit{}}
-	bs.SaveBlock(gen, gen.MakePartSet(65536), nil, nil, &types.TxsResult{TrieRoot: root, StateHash: stateHash})
+	bs.SaveBlock(gen, gen.MakePartSet(65536), nil, nil, &types.TxsResult{TrieRoot: root, StateHash: stateHash, Candidates: cands})
 	return nil
 }
 
